@@ -21,3 +21,5 @@ pub mod pause;
 
 /// TLS name encoding and certificate verifiers.
 pub use crate::tls::verif_hooks as tls;
+/// Default path selector (`BiasedRttPathSelector`) on synthetic path data.
+pub use crate::socket::biased_rtt_path_selector::verif_hooks as path_selector;
